@@ -287,8 +287,10 @@ def lu_all_shapes(rep: Report):
             # defining property (stored * pivot == entry before the division) for every row below the diagonal
             c.assume(ix.scal_eq(q(MF, rho, j), W.at(i_, j)))
             c.assume(g["mult_def"](i_))
+            c.assume(g["mult_le1"](i_))
             c.require("step", ix.scal_eq(q(MF, rho, j) * q(UF, j, j), A.at(rho, j) - sm(rho, j, j)),
                       "multiplier times pivot is the Schur-complement entry it eliminates", key="lu.columns.multiplier_definition")
+            c.require("step", qmod(q(MF, rho, j)) <= 1, "multiplier of modulus at most 1", key="lu.columns.multiplier_modulus_le_1")
         c.assume(ix.scal_eq(q(SM, rho, j + 1, c_), sm(rho, j, c_) + q(MF, rho, j) * q(UF, j, c_)))
 
     class Columns(LoopRule):
@@ -376,6 +378,7 @@ def lu_all_shapes(rep: Report):
             QF = F(c.fresh_name("QT"), I_)
             g["mult_q"] = lambda r: ix.QScal(*[SReal.mk(f(zi(r))) for f in QF])          # named quotient of row r
             g["mult_def"] = lambda r: ix.scal_eq(g["mult_q"](r) * piv, snap((r, j)))      # its defining equation
+            g["mult_le1"] = lambda r: qmod(g["mult_q"](r)) <= 1                            # partial pivoting: modulus at most 1
             cond, _ = ix.pointwise_eq(c, W, self.closed(fr, start))
             c.require("inv.establish", cond, "no row has been divided before the first row of the loop (which must be j+1)", key="lu.mult.inv.establish")
 
@@ -393,6 +396,19 @@ def lu_all_shapes(rep: Report):
             cond = ix.scal_eq(W.at(r_, c_), self.closed(fr, i + 1)((r_, c_)))
             c.require("inv.preserve", cond, "only A_work[i, j] changes, to the quotient by the pivot", key="lu.mult.inv.preserve")
             c.require("inv.preserve", g["mult_def"](i), "the stored multiplier times the pivot is the old entry", key="lu.mult.inv.preserve.quotient")
+            # |multiplier| <= 1: the modulus is multiplicative (library fact about quaternion_modulus and the Hamilton product), the
+            # pivot has the largest modulus of its column from row j down (argmax contract, instantiated at the row that now sits in row i)
+            j, piv = fr.vars["j"], fr.vars["pivot"]
+            y = g["mult_q"](i)
+            old_entry = g["mult_snap"]((i, j))
+            c.assume(SBool.mk(SReal.lift(qmod(old_entry)) == SReal.lift(qmod(y)) * SReal.lift(qmod(piv))))
+            am = g.get("argmax")
+            if am is not None:
+                arr, r, kind = am
+                for t in (i - j, 0, r):
+                    rel = (arr((t,)) <= arr((r,))) if kind == "max" else (arr((t,)) >= arr((r,)))
+                    c.assume(sor(snot(sand(t >= 0, t < fr.vars["m"] - j)), rel))
+            c.require("inv.preserve", g["mult_le1"](i), "partial pivoting keeps the multiplier's modulus at most 1", key="lu.mult.inv.preserve.modulus_le_1")
 
     # ---- library pieces for this run
     def k_modulus_idx(I, args, kwargs):
@@ -407,16 +423,21 @@ def lu_all_shapes(rep: Report):
         snap = Aq._snapshot()
         return ix.IArr.from_fn(list(Aq.vshape), lambda vi: ix.ite(vi[1] >= vi[0] + k, snap(tuple(vi)), ix.QScal(Fraction(0))), quat=True)
 
-    def np_argmax(a):
-        c = cur()
-        L = a.vshape[0]
-        r = SInt.var(c.fresh_name("argmax"))
-        c.assume(sand(r >= 0, r < L))
-        c.ghost["argmax"] = (a._snapshot(), r)
-        return r
+    def np_arg(kind):
+        def f(a):
+            """np.argmax / np.argmin by contract: some index r of the array with a[r] >= a[t] (resp. <=) for every t; the
+            universally quantified part is instantiated where it is used"""
+            c = cur()
+            L = a.vshape[0]
+            r = SInt.var(c.fresh_name("arg" + kind))
+            c.assume(sand(r >= 0, r < L))
+            c.ghost["argmax"] = (a._snapshot(), r, kind)
+            return r
+        return f
 
     lib = Library("idx")
-    lib.np.table["argmax"] = np_argmax
+    lib.np.table["argmax"] = np_arg("max")
+    lib.np.table["argmin"] = np_arg("min")
     orig_builtins = lib._builtins
 
     def patched(interp):
@@ -550,6 +571,7 @@ def lu_all_shapes(rep: Report):
                 ii = ix.ite(i_ > jx, i_, jx + 1)
                 ctx.assume(ix.scal_eq(q(MF, ip(ii), jx), W.at(ii, jx)))
                 ctx.assume(g["mult_def"](ii))
+                ctx.assume(g["mult_le1"](ii))
         # instances of the invariant's definitional facts for the columns eliminated before jx
         defU = lambda t, c: ix.scal_eq(q(UF, t, c), A.at(ip(t), c) - sm(ip(t), t, c))
         defM = lambda i, t: ix.scal_eq(q(MF, ip(i), t) * q(UF, t, t), A.at(ip(i), t) - sm(ip(i), t, t))
@@ -586,6 +608,9 @@ def lu_all_shapes(rep: Report):
         # stored entries are the ghost functions (so the three clauses above compose to P A = L U)
         out.append(("stored_upper_entries_are_UF", sor(snot(sand(i_ <= c_, i_ < N)), ix.scal_eq(W.at(i_, c_), q(UF, i_, c_)))))
         out.append(("stored_lower_entries_are_MF", sor(snot(c_ < i_), ix.scal_eq(W.at(i_, c_), q(MF, rho, c_)))))
+        # instance of the invariant fact "every multiplier of an eliminated column has modulus <= 1"
+        ctx.assume(sor(snot(sand(c_ < jx, c_ < i_)), qmod(q(MF, rho, c_)) <= 1))
+        out.append(("multipliers_have_modulus_at_most_1", sor(snot(c_ < i_), qmod(W.at(i_, c_)) <= 1)))
         out.append(("hypotheses_consistent", ctx.valid(SBool(z3.BoolVal(False))) is not True))
         return out
     from .c01 import dims
@@ -595,7 +620,8 @@ def lu_all_shapes(rep: Report):
             def setup_m(I, ctx, three=three):
                 ctx.ghost["mode_return_p"] = three
                 return setup(I, ctx)
-            common = ["shapes", "PA_equals_LU_entrywise", "U_is_upper_with_rows_UF", "IP_is_injective_into_0_m", "stored_upper_entries_are_UF", "stored_lower_entries_are_MF", "hypotheses_consistent"]
+            common = ["shapes", "PA_equals_LU_entrywise", "U_is_upper_with_rows_UF", "IP_is_injective_into_0_m", "stored_upper_entries_are_UF", "stored_lower_entries_are_MF",
+                      "multipliers_have_modulus_at_most_1", "hypotheses_consistent"]
             cl = (["returns_triple", "L_is_unit_lower_with_the_stored_multipliers", "P_has_its_one_at_IP"] if three else ["returns_pair", "row_IP_i_of_returned_L_is_row_i_of_L"]) + common
             def model_replay(inputs):
                 A4 = inputs.get("A")
